@@ -233,6 +233,9 @@ def missing_executable(run, anthem):
 
 def loom_layer(run, tier):
     """Layer 1: loom exploration of the real text of Prover::prove_all (instrumented copy)."""
+    if os.environ.get("VERIF_SKIP_LOOM"):
+        # only the mutation lanes set this: the loom harness instruments /repo's sources, not a lane's
+        return
     env = dict(os.environ, CARGO_NET_OFFLINE="true")
     r = subprocess.run(["cargo", "build", "--release", "--offline"], cwd="/verif/sched", env=env, stdout=subprocess.PIPE, stderr=subprocess.STDOUT)
     if r.returncode != 0:
